@@ -328,11 +328,18 @@ What the seventh round changed:
 * **Terms are DAGs**: a helper that turned a symbolic step count into a concrete one (F05-1) unrolled a simulation loop, and the tree walk over
   the shared sub-terms did not finish within the time limit in four checks; `walk` visits a shared node once, equality short-cuts on identity
   and cached hashes.
-* **Not solved**: the generator-based bisection of F09-2 (`for lower, upper in islice(_brackets(...), max_iter + 1): ... break ... else: raise`,
-  the decreasing case by `_negated(fn)` instead of recursion) is followed by the interpreter, but C19.R1-R3 (loop invariant, orientation,
-  bounded loop) are written for the recursion and the `while` test of `bisect`: on this structure they end in "cannot isolate the
-  increasing-orientation path" (exit 2, no verdict) - for the defective patch together with the on-point C19.R4 finding, for the repaired twin
-  alone. That is the designed failure mode (no verdict rather than a wrong one), but it is a refactoring these three rules do not survive.
+* **The generator-based bisection of F09-2** (`for lower, upper in islice(_brackets(...), max_iter + 1): ... break ... else: raise`, the
+  decreasing case by `_negated(fn)` and `-target` instead of recursion, the bracket validated in `_as_bounds`) at first ended C19.R1-R3 in
+  "cannot isolate the increasing-orientation path" - no verdict, for the defective patch and for its repaired twin alike. The three rules
+  were written for the recursion and the `while` test of `bisect`; they now classify the data-dependent decisions on the way by what they
+  compare (the two ends' function values = orientation, in whichever direction - R2 judges it; the initial bracket's width against the
+  precision = the loop test of an iteration run on its own; `max_iter` alone = the budget; `fn(m) == target` = exact hit; anything else is an
+  extra exit), take the looping path of the increasing orientation wherever it is, accept the exit test on the bracket as updated by the
+  same iteration, accept for the decreasing case either the recursion or the same loop on the mirror image (lower takes the midpoint when
+  `fn(m) > target`), and hold the endless loop of a generator to the bound of its consumers (`islice`). The repaired twin now discharges all
+  25 obligations of C19; two mutations of it (`target` not negated; `islice` dropped) are reported by R2 and R4. C06.R2's known finding KF4
+  (empty bracket for a constant sample) was tied to a guard *inside `bisect`* and silently disappeared on this structure; it is found
+  wherever the search validates its bracket.
 
 """
 
@@ -410,7 +417,16 @@ def refactorings():
     print(f"### 9.4f written: {len(rows6)} rows")
 
 
-FIRST7 = {}   # seed -> what the first run said, where it differs from the final verdict (filled from the first detection run)
+FIRST7 = {   # seed -> what the first run said, where it differs from the final verdict
+    "F01-2": "analysis error: next() over a generator expression",
+    "F01-3": "analysis error: try / except",
+    "F02-2": "reported, but because the decorator was ignored: the repaired twin would have been reported too",
+    "F03-2": "own check stopped (next / generator); reported only by C19",
+    "F03-3": "reported, analysis incomplete: NamedTuple(*size, ...)",
+    "F08-3": "MISSED by every check",
+    "F09-2": "reported by C19.R1 as 'no single search loop': the form, not the defect",
+    "F10-1": "analysis error: anchor BasePrimary.to vanished",
+}
 TWIN_FIRST7 = {}
 
 
@@ -439,7 +455,10 @@ def round7():
     print(f"### 9.4g written: {len(r_)} seeds, {len(twins)} twins")
 
 
-FIRST7_TEXT = "TODO"
+FIRST7_TEXT = ("23 reported by the check of the property the agent named, for the defect itself; 2 reported for a reason tied to the new form rather than to the "
+               "defect (F02-2, F09-2); 1 only by another property's check while its own stopped (F03-2); 3 stopped their own check with an analysis error "
+               "(F01-2, F01-3, F10-1); **1 missed by every check** (F08-3, the memoised module factory). Besides, F04-2, F05-1 and F09-2 stopped or timed out "
+               "unrelated checks. After the work below all 30 are reported by the check of the property the agent named, each for the defect itself.")
 TWINS7_TEXT = ""
 
 
